@@ -17,24 +17,53 @@
  *          byte appended after the failing call.  Bytes are lost only inside
  *          calls that returned an error.
  *
- * Appended sizes are SYMBOLIC (0..VP_MAXSZ each, VP_MAXSZ > 64 KiB): no loop
- * of the real code or of the models depends on a size (contents are not
- * modelled, see libc.h), so the 64 KiB buffer keeps its real size and every
- * size / fill level / straddle combination is covered.  With VP_S0..VP_S2
- * defined the sizes are concrete instead (menu obligations).
+ * Two styles (VP_OP):
+ *
+ *   VP_OP 1..4  INDUCTIVE STEP.  The file is created by the real code, then
+ *     its state is replaced by an ARBITRARY state satisfying the invariant
+ *
+ *       INV:  pos <= 65536, buf[0,pos) holds the stream bytes
+ *             [expect, expect+pos), expect + pos == appended,
+ *             accepted + lost == expect, the descriptor is open
+ *
+ *     (pos, expect, accepted symbolic; dirname/fd/manifest are the values the
+ *     real create produced: together that is the complete state of an
+ *     ldb_wfile_t), then ONE real operation runs -- 1 append of a SYMBOLIC size
+ *     0..VP_MAXSZ (> 64 KiB), 2 flush, 3 sync, 4 close+destroy -- and its
+ *     post-condition and INV are asserted.  create establishes INV (asserted in
+ *     every run), every operation preserves it, so the post-conditions hold
+ *     after every finite sequence of operations with arbitrary sizes.  No loop
+ *     of the real code or of the models depends on a size (contents are not
+ *     modelled, see libc.h), so the 64 KiB buffer keeps its real size.
+ *
+ *   VP_OP 0  SEQUENCE from create with CONCRETE sizes VP_S0..VP_S2 from a menu
+ *     that straddles 64 KiB, a symbolic flush/sync/none after each append,
+ *     symbolic close, destroy: cross-check of the inductive argument on whole
+ *     runs (an invariant that was too weak or a havoc that was too narrow would
+ *     show up here).
  */
+#ifndef VP_OP
+#define VP_OP 1
+#endif
 #ifndef VP_K
-#define VP_K 2              /* appends */
+#define VP_K 2              /* appends (sequence mode) */
 #endif
 #ifndef VP_MAXSZ
 #define VP_MAXSZ 200000
 #endif
-#define VP_TOTAL (VP_K * VP_MAXSZ + 1)
+#ifndef VP_EMAX
+#define VP_EMAX 1000000     /* bytes accepted before the step (inductive mode) */
+#endif
+#if VP_OP == 0
+#  define VP_TOTAL (VP_S0 + VP_S1 + VP_S2 + 1)
+#else
+#  define VP_TOTAL (VP_EMAX + 65536 + VP_MAXSZ + 1)
+#endif
 #ifndef VP_NAME
 #define VP_NAME 0
 #endif
-#ifndef VP_OPS
-#define VP_OPS 1            /* 1: a symbolic flush/sync/none after every append */
+#ifndef VP_APPENDMODE
+#define VP_APPENDMODE 0     /* 0: ldb_truncfile_create, 1: ldb_appendfile_create */
 #endif
 
 #define VP_NFILES 2         /* [0] the file, [1] its directory */
@@ -60,9 +89,8 @@ static const struct vp_namecase vp_cases[] = {
 static ldb_wfile_t *vp_wf;
 static size_t vp_appended;      /* bytes passed to append so far */
 static size_t vp_lost;          /* bytes discarded inside calls that returned a write error */
-static int vp_errors;           /* API calls that returned an error */
-static int vp_recovered, vp_wrapped, vp_sync_ok, vp_close_ok, vp_dirsync_seen, vp_err_seen;
-static int vp_mode_append;
+static int vp_errors;           /* API calls that returned an error (or: an error was reported earlier) */
+static int vp_recovered, vp_wrapped, vp_sync_ok, vp_close_ok, vp_dirsync_seen, vp_err_seen, vp_step_err;
 
 static void
 vp_begin_call(void) {
@@ -73,7 +101,7 @@ vp_begin_call(void) {
   vp_tolerated = 0;
 }
 
-/* common post-condition of append / flush / sync / close */
+/* common post-condition of append / flush / sync / close; re-establishes INV */
 static void
 vp_after_call(int rc, size_t pos_now) {
   if (vp_write_failed) {
@@ -88,6 +116,8 @@ vp_after_call(int rc, size_t pos_now) {
   if (rc != LDB_OK) {
     VP_ASSERT(vp_hard_fail, "an error is returned only if a libc call failed");
     VP_ASSERT(rc == vp_hard_errno, "the returned status is the errno of the first failing libc call");
+    if (!vp_write_failed)
+      vp_step_err = 1;
     vp_errors++;
   }
   VP_ASSERT(pos_now <= VP_WBUF, "pos stays inside the buffer");
@@ -95,6 +125,8 @@ vp_after_call(int rc, size_t pos_now) {
             "every appended byte is accepted by write(2), still buffered, or was discarded by a call that returned an error");
   VP_ASSERT(vp_expect + pos_now == vp_appended,
             "the buffered bytes are exactly the tail of the appended stream");
+  VP_ASSERT(pos_now == 0 || (!vp_run_bad && vp_run_len >= pos_now && vp_run_base == vp_expect),
+            "buf[0,pos) is the contiguous image of the unsent tail");
   if (vp_errors == 0)
     VP_ASSERT(vp_lost == 0 && vp_expect == vp_accepted, "no loss before the first reported error");
 }
@@ -103,7 +135,7 @@ static void
 vp_do_append(size_t size) {
   ldb_slice_t data;
   size_t pos0 = vp_wf->pos;
-  unsigned w0 = vp_write_calls;
+  int w0 = vp_write_calls;
   int rc;
 
   data.data = vp_stream + vp_appended;
@@ -119,7 +151,7 @@ vp_do_append(size_t size) {
     VP_ASSERT(!vp_hard_fail, "append returns OK only if no libc call failed");
   vp_after_call(rc, vp_wf->pos);
   if (rc == LDB_OK && pos0 + size <= VP_WBUF)
-    VP_ASSERT(vp_write_calls == w0, "an append that fits the buffer makes no system call");
+    VP_ASSERT(vp_write_calls == w0 && vp_wf->pos == pos0 + size, "an append that fits the buffer is only buffered");
   if (rc == LDB_OK && pos0 + size > VP_WBUF && pos0 > 0)
     vp_wrapped = 1;
   vp_cur_start = vp_cur_end = vp_appended;
@@ -128,7 +160,7 @@ vp_do_append(size_t size) {
 static void
 vp_do_flush(void) {
   size_t a0 = vp_accepted, p0 = vp_wf->pos;
-  int had_err = vp_err_seen;
+  int had_err = vp_errors > 0;
   int rc;
 
   vp_begin_call();
@@ -155,7 +187,7 @@ vp_do_sync(int manifest) {
     VP_ASSERT(!vp_hard_fail, "sync returns OK only if no step failed");
     VP_ASSERT(vp_wf->pos == 0, "sync leaves nothing in the user-space buffer");
     VP_ASSERT(vp_data_sync_tick > t0, "sync OK => fsync/fdatasync of the file succeeded in this call");
-    VP_ASSERT(vp_data_sync_tick > vp_last_write_tick || vp_last_write_tick == 0,
+    VP_ASSERT(vp_data_sync_tick > vp_last_write_tick,
               "the fsync/fdatasync comes after the last write(2): data is flushed before it is synced");
     if (manifest) {
       VP_ASSERT(vp_dir_opens == dir0 + 1, "MANIFEST: the containing directory is opened once");
@@ -167,19 +199,47 @@ vp_do_sync(int manifest) {
   }
   if (!manifest)
     VP_ASSERT(vp_opens == opens0, "not a MANIFEST: sync opens nothing");
-  if (manifest && vp_dir_opens > dir0) {
-    VP_ASSERT(vp_dir_close_tick > vp_dir_open_tick || !vp_fd_ok(vp_dir_fd),
-              "the directory descriptor is closed again");
+  VP_ASSERT(vp_nopen == 1 && vp_fd_ok(vp_data_fd),
+            "after sync exactly the file's descriptor is open (directory descriptor closed, none lost)");
+}
+
+static int
+vp_do_close(void) {
+  size_t a0 = vp_accepted, p0 = vp_wf->pos;
+  int fd = vp_wf->fd;
+  int rc;
+
+  vp_begin_call();
+  rc = ldb_wfile_close(vp_wf);
+  vp_after_call(rc, vp_wf->pos);
+  VP_ASSERT(vp_nopen == 0 && !vp_fd_ok(fd), "close(2) was called on the descriptor, also when the final flush failed");
+  VP_ASSERT(vp_wf->fd == -1, "the object forgets the descriptor");
+  if (rc == LDB_OK) {
+    VP_ASSERT(!vp_hard_fail, "close returns OK only if flush and close(2) succeeded");
+    VP_ASSERT(vp_accepted == a0 + p0 && vp_wf->pos == 0, "close flushes the buffer first");
+    vp_close_ok = 1;
   }
-  VP_ASSERT(vp_nopen == 1 && vp_fd_ok(vp_data_fd), "after sync exactly the file's descriptor is open (none leaked, none lost)");
+  return rc;
+}
+
+static void
+vp_do_destroy(void) {
+  int i;
+  vp_begin_call();
+  ldb_wfile_destroy(vp_wf);
+  VP_ASSERT(vp_nopen == 0, "destroy leaves no descriptor open");
+  VP_ASSERT(vp_fds[0].closes == 1, "the file's descriptor is closed exactly once");
+  for (i = 1; i < VP_MAXFD; i++)
+    VP_ASSERT(!vp_fds[i].isopen && vp_fds[i].closes <= 1, "no other descriptor is left open or closed twice");
 }
 
 void
 harness(void) {
   const struct vp_namecase *nc = &vp_cases[VP_NAME];
-  int rc, k, closed = 0;
-#ifdef VP_S0
+  int rc, closed = 0;
+#if VP_OP == 0
   static const size_t menu[3] = { VP_S0, VP_S1, VP_S2 };
+  int k;
 #endif
 
   vp_names[0] = nc->name;
@@ -188,13 +248,13 @@ harness(void) {
   vp_name_file[0] = 0;
   vp_name_file[1] = 1;
 
-  /* ---- create --------------------------------------------------------- */
-  vp_mode_append = vp_bool();
+  /* ---- create: establishes INV ------------------------------------------ */
   vp_begin_call();
-  if (vp_mode_append)
-    rc = ldb_appendfile_create(nc->name, &vp_wf);
-  else
-    rc = ldb_truncfile_create(nc->name, &vp_wf);
+#if VP_APPENDMODE
+  rc = ldb_appendfile_create(nc->name, &vp_wf);
+#else
+  rc = ldb_truncfile_create(nc->name, &vp_wf);
+#endif
 
   if (rc != LDB_OK) {
     VP_ASSERT(vp_hard_fail && vp_hard_call == 1 && rc == vp_hard_errno, "create fails only with the errno of open(2)");
@@ -212,10 +272,11 @@ harness(void) {
     md = vp_fds[i].mode;
     VP_ASSERT(vp_fds[i].name == 0, "the descriptor refers to the requested name");
     VP_ASSERT((fl & O_ACCMODE) == O_WRONLY && (fl & O_CREAT), "opened write-only, created if missing");
-    if (vp_mode_append)
-      VP_ASSERT((fl & O_APPEND) && !(fl & O_TRUNC), "appendable file: O_APPEND and never O_TRUNC (existing contents kept)");
-    else
-      VP_ASSERT((fl & O_TRUNC) != 0, "truncating create: O_TRUNC");
+#if VP_APPENDMODE
+    VP_ASSERT((fl & O_APPEND) && !(fl & O_TRUNC), "appendable file: O_APPEND and never O_TRUNC (existing contents kept)");
+#else
+    VP_ASSERT((fl & O_TRUNC) != 0, "truncating create: O_TRUNC");
+#endif
     VP_ASSERT(md == 0644, "mode 0644");
   }
   VP_ASSERT(vp_wf->pos == 0, "fresh file: empty buffer");
@@ -224,80 +285,92 @@ harness(void) {
   vp_wbuf = vp_wf->buf;
   if (vp_saw_einval_open)
     VP_WITNESS("open-einval-retried-without-cloexec");
+  if (vp_saw_eintr)
+    VP_WITNESS("open-eintr-retried");
 
-  /* ---- appends with symbolic flush / sync in between ------------------- */
+#if VP_OP == 0
+  /* ---- sequence: appends with symbolic flush / sync in between ----------- */
   for (k = 0; k < VP_K; k++) {
-    size_t size;
-#if VP_OPS
     uint8_t op;
-#endif
-#ifdef VP_S0
-    size = menu[k];
-#else
-    size = vp_size();
-    VP_ASSUME(size <= VP_MAXSZ);
-#endif
-    vp_do_append(size);
-#if VP_OPS
+    vp_do_append(menu[k]);
     op = vp_u8();
     VP_ASSUME(op <= 2);
     if (op == 1)
       vp_do_flush();
     else if (op == 2)
       vp_do_sync(nc->manifest);
-#endif
   }
-
-  /* ---- close (symbolic) and destroy ------------------------------------ */
   if (vp_bool()) {
-    size_t a0 = vp_accepted, p0 = vp_wf->pos;
-    int fd = vp_wf->fd;
-    vp_begin_call();
-    rc = ldb_wfile_close(vp_wf);
-    vp_after_call(rc, vp_wf->pos);
+    vp_do_close();
     closed = 1;
-    VP_ASSERT(vp_nopen == 0 && !vp_fd_ok(fd), "close(2) was called on the descriptor, also when the final flush failed");
-    VP_ASSERT(vp_wf->fd == -1, "the object forgets the descriptor");
-    if (rc == LDB_OK) {
-      VP_ASSERT(!vp_hard_fail, "close returns OK only if flush and close(2) succeeded");
-      VP_ASSERT(vp_accepted == a0 + p0 && vp_wf->pos == 0, "close flushes the buffer first");
-      vp_close_ok = 1;
-    }
   }
-
+  vp_do_destroy();
+#else
+  /* ---- inductive step: arbitrary state satisfying INV ---------------------- */
   {
-    int fd = vp_data_fd, i;
-    vp_begin_call();
-    ldb_wfile_destroy(vp_wf);
-    VP_ASSERT(vp_nopen == 0, "destroy leaves no descriptor open");
-    for (i = 0; i < VP_MAXFD; i++) {
-      if (fd == VP_FD0 + i)
-        VP_ASSERT(vp_fds[i].closes == 1, "the file's descriptor is closed exactly once");
-      else
-        VP_ASSERT(vp_fds[i].closes <= 1, "no descriptor is closed twice");
-    }
+    size_t p = vp_size(), e = vp_size(), a = vp_size();
+    VP_ASSUME(p <= VP_WBUF && e <= VP_EMAX && a <= e);
+    vp_wf->pos = p;
+    vp_run_base = e;
+    vp_run_len = p;
+    vp_run_bad = 0;
+    vp_expect = e;
+    vp_appended = e + p;
+    vp_accepted = a;
+    vp_lost = e - a;
+    vp_errors = vp_bool();            /* an error may have been reported before */
+    VP_ASSUME(vp_lost == 0 || vp_errors);
+    vp_last_write_tick = vp_clock;
+    vp_saw_eintr = vp_saw_short = 0;
+    vp_intrs_left = VP_INTRS;
   }
+#  if VP_OP == 1
+  {
+    size_t size = vp_size();
+    VP_ASSUME(size <= VP_MAXSZ);
+    vp_do_append(size);
+  }
+#  elif VP_OP == 2
+  vp_do_flush();
+#  elif VP_OP == 3
+  vp_do_sync(nc->manifest);
+#  elif VP_OP == 4
+  vp_do_close();
+  closed = 1;
+  vp_do_destroy();
+#  elif VP_OP == 5
+  vp_do_destroy();
+#  endif
+#endif
 
   /* ---- reachability witnesses ------------------------------------------- */
-  if (vp_errors == 0 && closed && vp_close_ok && vp_accepted == vp_appended && vp_appended > VP_WBUF)
+#if VP_OP == 0
+  if (vp_errors == 0 && closed && vp_close_ok && vp_accepted == vp_appended && vp_appended > 0)
     VP_WITNESS("all-ok-everything-accepted");
+  if (vp_recovered)
+    VP_WITNESS("flush-after-failed-write-sends-only-new-bytes");
+#endif
+#if VP_OP == 0 || VP_OP == 1 || VP_OP == 2 || VP_OP == 3 || VP_OP == 4
   if (vp_saw_short && vp_errors == 0)
     VP_WITNESS("short-write-handled");
   if (vp_saw_eintr && vp_errors == 0)
     VP_WITNESS("eintr-retried");
   if (vp_err_seen)
     VP_WITNESS("write-error-returned");
-  if (vp_recovered)
-    VP_WITNESS("flush-after-failed-write-sends-only-new-bytes");
+#endif
+#if VP_OP == 1 || (VP_OP == 0 && defined(VP_WDIRECT))
   if (vp_direct_writes > 0)
     VP_WITNESS("unbuffered-large-append");
+#endif
+#if VP_OP == 1
   if (vp_wrapped)
     VP_WITNESS("append-straddles-buffer");
-#if VP_OPS
+#endif
+#if VP_OP == 0 || VP_OP == 3
   if (vp_sync_ok)
     VP_WITNESS("sync-ok");
-  if (vp_errors > 0 && !vp_err_seen)
-    VP_WITNESS("sync-or-close-step-failed");
+  if (vp_step_err)
+    VP_WITNESS("sync-step-failed-and-reported");
 #  if VP_NAME == 1 || VP_NAME == 2 || VP_NAME == 3 || VP_NAME == 5
   if (vp_dirsync_seen)
     VP_WITNESS("manifest-directory-synced-first");
@@ -305,4 +378,14 @@ harness(void) {
     VP_WITNESS("directory-fsync-einval-tolerated");
 #  endif
 #endif
+#if VP_OP == 4
+  if (vp_close_ok)
+    VP_WITNESS("close-ok");
+  if (vp_step_err)
+    VP_WITNESS("close-error-reported");
+#endif
+#if VP_OP == 5
+  VP_WITNESS("destroy-without-close");
+#endif
+  (void)closed;
 }
